@@ -56,6 +56,13 @@ pub fn run_history(case: &HistoryCase, monitors: &mut [&mut dyn Monitor], l: &mu
                     l.count("program_panics");
                 }
                 l.count(&format!("rejected/{}/{}", op_name(op), code));
+                // development aid: VERIF_DEBUG_CODE=<code> prints the first rejection with that code
+                if let Ok(want) = std::env::var("VERIF_DEBUG_CODE") {
+                    static ONCE: std::sync::atomic::AtomicBool = std::sync::atomic::AtomicBool::new(false);
+                    if want == code.to_string() && !ONCE.swap(true, std::sync::atomic::Ordering::SeqCst) {
+                        eprintln!("DEBUG rejected op #{i} {op:?} spec {:?}\n  logs: {:?}", case.spec, r.outcome.as_ref().map(|o| o.logs.clone()));
+                    }
+                }
                 // atomicity of the harness itself: a rejected instruction changes nothing
                 if post.pool != pre.pool || post.balances != pre.balances {
                     return Err(format!("op #{i} {op:?} was rejected but state changed (harness atomicity)"));
